@@ -332,3 +332,41 @@ _old_register3 = register
 def register(op, g):  # noqa: F811
     _old_register3(op, g)
     _register4(op, g)
+
+
+def _register5(op, g):
+    unhex, tohex = g["unhex"], g["tohex"]
+    import marshal
+
+    @op
+    def load_pyc_native(a):
+        """this interpreter's own reading of a .pyc image: header length by its own format, then
+        marshal.loads; fields of every code object; optionally run it"""
+        data = unhex(a["pyc"])
+        hl = 16 if PY >= (3, 7) else 12 if PY >= (3, 3) else 8
+        try:
+            co = marshal.loads(data[hl:])
+        except Exception as e:
+            return {"err": type(e).__name__, "msg": str(e)[:100]}
+        if not hasattr(co, "co_code"):
+            return {"err": "not-code", "msg": type(co).__name__}
+        out = {"codes": [{"fields": _code_fields(c)} for c in _walk(co)]}
+        if a.get("run"):
+            import io as _io
+            buf = []
+            glb = {"__name__": "__xv__", "print": lambda *x: buf.append(" ".join(str(i) for i in x))}
+            try:
+                exec(co, glb)
+                out["ran"] = "ok"
+            except BaseException as e:
+                out["ran"] = type(e).__name__
+            out["printed"] = buf[:20]
+        return out
+
+
+_old_register4 = register
+
+
+def register(op, g):  # noqa: F811
+    _old_register4(op, g)
+    _register5(op, g)
